@@ -11,6 +11,7 @@ import (
 	"sort"
 	"strconv"
 	"strings"
+	"time"
 
 	"github.com/cloudwego/dynamicgo/conv"
 	"github.com/cloudwego/dynamicgo/conv/j2t"
@@ -260,6 +261,7 @@ func c17AnnoList(srcs []hmSrc) []string {
 }
 
 func runC17(c *h.Ctx) {
+	defer c17WideRoot(c)
 	defer c17RawBodyComplex(c)
 	defer c17RespOptions(c)
 	c.Run("request", c.N(6000, 200000), func(cs *h.Case) {
@@ -1422,6 +1424,67 @@ func c17RawBodyComplex(c *h.Ctx) {
 		cs.Cover("rawbody_complex_ok")
 		cs.Cover("rawbody_complex_ok_" + cls)
 		cs.Distinct(fmt.Sprintf("rb-%s-%s", cls, shapeKey(v)[:min(len(shapeKey(v)), 14)]))
+	})
+}
+
+// c17WideRoot: root structs with more fields than the native field cache (4096): with body fallback and traceback all
+// unset root fields are handed back to Go; the few that have a value under their own name in the query are filled.
+func c17WideRoot(c *h.Ctx) {
+	c.Run("wide-root", c.N(12, 48), func(cs *h.Case) {
+		n := []int{100, 4095, 4096, 4097, 4100, 5000, 8192, 8193, 9000, 12289, 4098, 6000}[cs.I%12]
+		st := &gen.StructT{Name: "Wide"}
+		for i := 0; i < n; i++ {
+			st.Fields = append(st.Fields, &gen.FieldT{ID: int16(1 + i), Name: fmt.Sprintf("w%d", i), T: &gen.Type{T: tref.I32}, Req: gen.ReqDefault})
+		}
+		sc := &gen.Schema{Structs: []*gen.StructT{st}, Root: st}
+		desc, _, err := ParseRoot(sc, thrift.NewDefaultOptions())
+		if err != nil {
+			cs.Viol("hm:parse-idl", "err", err)
+			return
+		}
+		want := tref.Struct()
+		q := url.Values{}
+		for k := 0; k < 3; k++ {
+			i := cs.R.Intn(n)
+			if want.FieldByID(int16(1+i)) != nil {
+				continue
+			}
+			v := int32(cs.R.Intn(100000))
+			q.Set(fmt.Sprintf("w%d", i), strconv.Itoa(int(v)))
+			want.Fs = append(want.Fs, tref.Field{ID: int16(1 + i), V: tref.Int32(v)})
+		}
+		sr, _ := stdhttp.NewRequest("POST", "http://verif.example/w?"+q.Encode(), bytes.NewReader([]byte("{}")))
+		sr.Header.Set("Content-Type", "application/json")
+		req, err := dhttp.NewHTTPRequestFromStdReq(sr)
+		if err != nil {
+			cs.Viol("hm:request-build", "err", err)
+			return
+		}
+		cs.Info("fields", n)
+		ctx := context.WithValue(context.Background(), conv.CtxKeyHTTPRequest, req)
+		var out []byte
+		cs.Guarded("j2t.Do+wide-root", 30*time.Second, func() {
+			cv := j2t.NewBinaryConv(conv.Options{EnableHttpMapping: true, ReadHttpValueFallback: true, TracebackRequredOrRootFields: true})
+			out, err = cv.Do(ctx, desc, []byte("{}"))
+		})
+		if err != nil {
+			cs.Viol("hm:wide-root:error-on-domain", "err", err, "fields", n)
+			return
+		}
+		got, derr := tref.Decode(out, tref.STRUCT)
+		if derr != nil {
+			cs.Viol("hm:wide-root:malformed-output", "decode-error", derr)
+			return
+		}
+		if !tref.EqualUnordered(got, want) {
+			cs.Viol("hm:wide-root:value", "got", trunc(got.String()), "want", want.String(), "fields", n)
+			return
+		}
+		cs.Cover("wide_root_ok")
+		if n > 4096 {
+			cs.Cover("wide_root_beyond_field_cache_ok")
+		}
+		cs.Distinct(fmt.Sprintf("wr-%d", n))
 	})
 }
 
